@@ -21,7 +21,11 @@ import time
 
 from common import NPROC, VERIF, Check, parse_coq_value, parse_eval_outputs, run_impl
 
-CALLS = ["begin", "send0", "send1", "send_offsets", "commit", "abort", "ctx_ok", "ctx_exc"]
+CALLS = ["begin", "send0", "send1", "send_offsets", "commit", "abort", "ctx_ok", "ctx_exc",
+         "send0_nowait", "send1_nowait"]
+NCALLS = len(CALLS)
+NW = (8, 9)
+MAXIDX = 4
 KINDS = [("error", 3), ("error", 7), ("error", 14), ("error", 15), ("error", 16), ("error", 29),
          ("error", 30), ("error", 45), ("error", 47), ("error", 48), ("error", 49), ("error", 51),
          ("error", 53), ("error", 2), ("drop_before", 0), ("drop_after", 0)]
@@ -55,6 +59,8 @@ def to_payload(pid, prog, brokers=1):
     for i, (_, f) in enumerate(prog):
         if f:
             faults[str(i)] = fault_of_num(f)
+    if any(c in NW for c, _ in prog):
+        brokers = 1      # the model of nowait sends assumes one leader for both partitions
     return {"id": pid, "calls": [CALLS[c] for c, _ in prog], "faults": faults, "brokers": brokers}
 
 
@@ -81,10 +87,24 @@ def flat_real(res):
         rq = c["requests"]
         out.append(len(rq) + (1000 if c["late_requests"] else 0))
         for api, args in rq:
-            out += [API_NUM.get(api, -1), args[0] if args else 0]
+            if api in ("Produce", "AddPartitionsToTxn"):
+                out += [API_NUM[api], sum(1 << q for q in args)]
+            else:
+                out += [API_NUM.get(api, -1), args[0] if args else 0]
         out.append(STATE_NUM.get(c["state_after"], -1))
         out += [1 if 0 in c["txn_partitions"] else 0, 1 if 1 in c["txn_partitions"] else 0,
                 1 if c["group_added"] else 0]
+        futs = c.get("futs") or {}
+        for q in ("0", "1"):
+            fu = futs.get(q)
+            if fu is None:
+                out += [0, 0]
+            elif fu[0] == "ok":
+                out += [3, 0]
+            elif fu[0] == "exc":
+                out += [2, exn_num(fu[1], fu[2])]
+            else:
+                out += [-1, -1]
     return out
 
 
